@@ -158,8 +158,13 @@ def specs_for(n, with_weights=True):
 @st.composite
 def random_cases(draw):
     n = draw(st.integers(1, 8))
-    style = draw(st.integers(0, 3))
-    if style == 0:
+    style = draw(st.integers(0, 4))
+    if style == 4:
+        # sums beyond 2^53 (exact as Python ints and as int64, not as float64): the objectives are plain integer functions of the sums
+        sums = S.splitmix(draw(st.integers(0, 2 ** 40)), n, 2 ** 53, 2 ** 58)
+        if draw(st.booleans()) and n >= 2:
+            sums[1] = sums[0] + draw(st.integers(1, 3))          # two sums that differ by less than one float64 ulp
+    elif style == 0:
         sums = draw(st.lists(st.integers(0, 10), min_size=n, max_size=n))
     elif style == 1:
         sums = S.splitmix(draw(st.integers(0, 2 ** 40)), n, 0, 10 ** 6)
@@ -169,6 +174,10 @@ def random_cases(draw):
         sums = sorted(S.splitmix(draw(st.integers(0, 2 ** 40)), n, 0, 1000), reverse=draw(st.booleans()))
     kind = draw(st.sampled_from(KINDS))
     case = {"sums": sums, "seq": draw(st.sampled_from(SEQS))}
+    if style == 4:
+        case["seq"] = draw(st.sampled_from(["list", "tuple", "iarray"]))      # float64 cannot hold these sums
+        if kind == "wmaxmin":
+            kind = "diff"
     if kind in ("klargest", "ksmallest"):
         case["obj"] = f"{kind}:{draw(st.integers(1, n + 3))}"
     elif kind == "wmaxmin":
@@ -275,6 +284,6 @@ def legs(tier):
 
 def main():
     return runner.run_check(PROP, legs(env.tier()), level="exploration", assumptions=[
-        "non-negative integer sums up to 10^6 (exactly representable as float64)",
+        "non-negative integer sums up to 10^6, and - as lists, tuples and int64 arrays - up to 2^58 (totals stay below 2^63)",
         "weighted objective compared with the exact rational value within 1e-12 relative tolerance (one float division)",
     ])
